@@ -96,13 +96,12 @@ fn unitary_consumer(e: &Expression, o: &mut Outcome) {
         return;
     }
     let p = c03::Point { vars: Default::default(), mem: Default::default() };
-    // the same exclusions as for direct evaluation (finite, not branch-cut sensitive)
-    if !matches!(c03::judge_opts(e, e, &p, true), Judged::Same) {
-        return;
-    }
-    let v = c03::eval(e, &p).unwrap();
-    let want = v.cos() + Complex64::new(0.0, 1.0) * v.sin();
-    if !want.re.is_finite() || !want.im.is_finite() {
+    // the same exclusions as for direct evaluation (finite, inside no tolerance band); on a branch cut every
+    // admissible value of the parameter is accepted
+    let Some(values) = c03::legitimate_values(e, &p, true) else { return };
+    let wants: Vec<(Complex64, Complex64)> =
+        values.iter().map(|v| (*v, v.cos() + Complex64::new(0.0, 1.0) * v.sin())).collect();
+    if wants.iter().any(|(_, w)| !w.re.is_finite() || !w.im.is_finite()) {
         return;
     }
     let mut gate = Gate::new("PHASE", vec![e.clone()], vec![Qubit::Fixed(0)], vec![]).expect("PHASE gate");
@@ -111,10 +110,10 @@ fn unitary_consumer(e: &Expression, o: &mut Outcome) {
         Ok(m) => {
             let got = m[[1, 1]];
             // cis amplifies an absolute error of its argument by |cis|: compare with the scale of v
-            if !c03::close(want, got, want.norm() * (1.0 + v.norm())) {
+            if !wants.iter().any(|(v, want)| c03::close(*want, got, want.norm() * (1.0 + v.norm()))) {
                 o.violate(Violation::new(
                     "Gate::to_unitary parameter folding",
-                    c03::cplx_json(Some(want)),
+                    c03::cplx_json(Some(wants[0].1)),
                     c03::cplx_json(Some(got)),
                 ));
             }
